@@ -110,7 +110,7 @@ def random_table(rng, nchains=None, nmodels=None, max_res=6, serial0=None, multi
             icode = ""
             r = rng.random()
             if r < 0.15:
-                icode = rng.choice("ABCXYZ")           # same number, new insertion code
+                icode = rng.choice("ABCXYZ" + "ABCXYZ" + "1270")   # same number, new insertion code (letters, now and then a digit)
             elif r < 0.9:
                 num += rng.choice([1, 1, 1, 1, 2, 5])
             else:
